@@ -8,6 +8,7 @@ from vlib.facts import kids, strip, walk, is_call, call_args, call_object, calle
 from vlib.paren import Paren, ANY, CLEAN
 from vlib.cfg import write_target
 from vlib.work import AnalysisBroken
+from vlib.exprterm import Builder, TermError, NF, Poly, nf_deep, show, member_chain
 
 UNITS = ["src/occa/internal/lang/builtins/attributes/tile.cpp", "src/occa/internal/lang/operator.cpp", "src/occa/internal/lang/expr/expr.cpp"]
 T = "occa::lang::attributes::tile::"
@@ -30,7 +31,7 @@ def run(ctx):
     R = ctx.R
     prog = ctx.program(UNITS, thorough_all=False)
     R.explanation = ("Decides the embedding discipline of the three @tile builders, that the inner loop's extent is derived from the block loop's own step expression, and that the remainder check re-uses the user's comparison. "
-                     "Does not decide the iteration arithmetic itself.")
+                     "The stored loop headers are derived as closed forms per configuration (TERM).")
     R.rule("C18-R1", "tile size / increment embedded only parenthesised or tighter-binding", floor=10)
     R.rule("C18-R2", "inner loop bound offset = block loop step", floor=3)
     R.rule("C18-R3", "bounds check applied by default with the original operator/bound/iterator", floor=4)
@@ -43,121 +44,140 @@ def run(ctx):
             R.ob("C18-R1", ok, f.q, key, f.site(node), detail)
         Paren(prog, f, tile_sources, rep).run()
 
-    # ---- R2 --------------------------------------------------------------------------
-    si = prog.fn(T + "setupInnerForStatement")
-    bounds = [n for n in si.walk() if n["k"] == "VarDecl" and n["n"] == "bounds"]
-    if len(bounds) != 1:
-        raise AnalysisBroken("setupInnerForStatement: `bounds` not found")
-    ue = [n for n in si.walk() if n["k"] == "VarDecl" and n["n"] == "updateExpr"]
-    ok_ue = len(ue) == 1 and "blockForSmnt.update" in noid(render(ue[0], False)) or (len(ue) == 1 and "updateSmnt" in noid(render(ue[0], False)))
-    us = [n for n in si.walk() if n["k"] == "VarDecl" and n["n"] == "updateSmnt"]
-    ok_ue = ok_ue and len(us) == 1 and "blockForSmnt.update" in noid(render(us[0], False))
-    R.ob("C18-R2", ok_ue, si.q, "updateExpr is the block loop's update expression", si.site(ue[0]) if ue else si.relfile, "updateExpr <- *blockForSmnt.update")
-    # operands added to / subtracted from blockIterator in `bounds` must derive from updateExpr.rightValue
-    derived = set()
-    defs = si.local_defs()
-    changed = True
-    while changed:
-        changed = False
-        for d, ds in defs.items():
-            if d in derived:
-                continue
-            for dn in ds:
-                if dn["k"] == "VarDecl" and kids(dn):
-                    txt = noid(render(kids(dn)[0], False))
-                    if "updateExpr.rightValue" in txt or any(x["k"] == "DeclRefExpr" and x.get("d") in derived for x in walk(dn)):
-                        derived.add(d)
-                        changed = True
-    addends = []
-    for n in walk(bounds[0]):
-        if n["k"] == "CXXOperatorCallExpr" and n.get("op") in ("+", "-") and callee(n).startswith("occa::lang::operator"):
-            l, r = strip(kids(n)[1]), strip(kids(n)[2])
-            addends.append((n, l, r))
-    okb = bool(addends)
-    for n, l, r in addends:
-        lname = noid(render(l, False))
-        rd = r.get("d") if r["k"] == "DeclRefExpr" else None
-        good = lname == "blockIterator" and (rd in derived or "updateExpr.rightValue" in noid(render(r, False)))
-        okb &= good
-        R.ob("C18-R2", good, si.q, "bounds: blockIterator %s %s" % (n.get("op"), noid(render(r, False))), si.site(n),
-             "the inner loop spans one block step (offset derives from the block update's right-hand side)" if good else
-             "the inner loop's extent is built from the tile size independently of the block loop's step: with `x += 2` and @tile(4) the block advances by 8 but the inner loop covers 4, so iterations are skipped")
-    sel = noid(render(bounds[0], False))
-    R.ob("C18-R2", "updateExpr.opType()" in sel and "addEq" in sel, si.q, "bounds: + for +=, - for -=", si.site(bounds[0]), "direction follows the block update operator")
+    # ---- R2 / R3 / R4: closed forms of what the three builders store (TERM) -------------------------------------------------------
     sb = prog.fn(T + "setupBlockForStatement")
-    mult = [n for n in sb.walk() if n["k"] == "CXXOperatorCallExpr" and n.get("op") == "*" and callee(n).startswith("occa::lang::operator")]
-    ok = len(mult) == 1 and "tileSizeExpr" in noid(render(mult[0], False)) and "increment" in noid(render(mult[0], False))
-    R.ob("C18-R2", ok, sb.q, "block step = (TILE) * (INC) for += / -=", sb.site(mult[0]) if mult else sb.relfile, "the block loop advances by tile size times the original increment")
-
-    # ---- R4 --------------------------------------------------------------------------
-    # the inner loop runs over [blockIterator, blockIterator + step): its comparison against `bounds` must be strict. The original
-    # operator may be re-used only where it is known not to be <= / >=.
-    cfgi = si.cfg
-    INi = cfgi.facts_in()
-    INCL = ("lessThanEq", "greaterThanEq")
-
-    def op_cases(e, excluded):
-        """[(operator description, set of inclusive flags known false)] for an operator-valued expression"""
-        e = strip(e)
-        if e["k"] == "ConditionalOperator":
-            cond = noid(render(kids(e)[0], False))
-            tested = {f_ for f_ in INCL if f_ in cond}
-            return op_cases(kids(e)[1], excluded) + op_cases(kids(e)[2], excluded | tested)
-        if e["k"] == "DeclRefExpr" and e.get("loc"):
-            out = []
-            for dn in si.local_defs().get(e["d"], []):
-                if dn["k"] == "VarDecl" and kids(dn):
-                    init = strip(kids(dn)[0])
-                    if init["k"] in ("ConditionalOperator",) or (init["k"] == "DeclRefExpr" and init.get("n", "").startswith("occa::lang::op::")):
-                        out += op_cases(init, excluded)
-                    else:
-                        out.append((noid(render(init, False)), excluded))
-            return out or [(noid(render(e, False)), excluded)]
-        return [(noid(render(e, False)), excluded)]
-    inner_checks = [c for c in si.walk() if is_call(c) and callee(c) == "occa::lang::expr::binaryOpExpr" and any("bounds" == noid(render(a, False)) for a in call_args(c)[1:])]
-    if len(inner_checks) < 2:
-        raise AnalysisBroken("setupInnerForStatement: inner check constructions not found")
-    for c in inner_checks:
-        fs = {(noid(k), pol) for (k, pol) in cfgi.facts_at(c, INi)}
-        known_false = set()
-        for (k, pol) in fs:
-            if not pol and "checkOpType" in k and any(f_ in k for f_ in INCL):
-                known_false |= {f_ for f_ in INCL if f_ in k}
-        bad = []
-        for desc, excl in op_cases(call_args(c)[0], set()):
-            strict_const = desc in ("occa::lang::op::lessThan", "occa::lang::op::greaterThan")
-            if strict_const:
-                continue
-            if (excl | known_false) >= set(INCL):
-                continue      # the original operator, known not to be inclusive here
-            bad.append(desc)
-        R.ob("C18-R4", not bad, si.q, "inner check operator: %s" % noid(render(call_args(c)[0], False))[:50], si.site(c),
-             "strict operator, or the original one where it is known to be strict" if not bad else
-             "the inner loop may be compared with the original inclusive operator (%s): each tile then covers one value more than the block step and neighbouring tiles overlap" % bad)
-
-    # ---- R3 --------------------------------------------------------------------------
+    si = prog.fn(T + "setupInnerForStatement")
     sc = prog.fn(T + "setupCheckStatement")
+    pidx = {f.q: {p["n"]: i for i, p in enumerate(f.d["params"])} for f in (sb, si, sc)}
+    for f in (sb, si, sc):
+        kinds = [f.tname(p.get("t")) for p in f.d["params"]]
+        if sum("forStatement" in k_ and "okl" not in k_ for k_ in kinds) != 2 or sum("variable_t" in k_ for k_ in kinds) != 1:
+            raise AnalysisBroken("%s: parameter list changed (%s)" % (f.q, kinds))
+    def roles(f):
+        """parameter indices: (block iterator variable, block for statement, inner for statement) - by type and order"""
+        fs = [i for i, p in enumerate(f.d["params"]) if "forStatement" in f.tname(p.get("t")) and "okl" not in f.tname(p.get("t"))]
+        v = [i for i, p in enumerate(f.d["params"]) if "variable_t" in f.tname(p.get("t"))]
+        return v[0], fs[0], fs[1]
+
+    def sources_for(f):
+        vi, bi, ii = roles(f)
+        bname = f.d["params"][vi]["n"]
+
+        def src(e):
+            if e["k"] == "DeclRefExpr" and e.get("d") == f.d["params"][vi]["d"]:
+                return ("s", "B")
+            if e["k"] == "DeclRefExpr" and "exprNode" in f.type(e) and e.get("d") in [p["d"] for p in f.d["params"]]:
+                return ("s", "TILE")
+            if e["k"] == "MemberExpr" and e.get("n", "").endswith("oklForStatement::iterator"):
+                return ("s", "X")
+            if e["k"] == "MemberExpr" and e.get("n", "").split("::")[-1] in ("rightValue", "leftValue"):
+                root, ch = member_chain(f, e)
+                side = "R" if e["n"].endswith("rightValue") else "L"
+                if root == ii and any(c.endswith("forStatement::update") for c in ch):
+                    return ("s", "INC") if side == "R" else None
+                if root == bi and any(c.endswith("forStatement::update") for c in ch):
+                    return ("s", "STEP") if side == "R" else None
+                if root == bi and any(c.endswith("forStatement::check") for c in ch):
+                    return ("s", "BOUND_" + side)
+                return ("s", "?%s:%s" % (root, "/".join(c.split("::")[-1] for c in ch)))
+            return None
+
+        def ops(e):
+            if e["k"] == "MemberExpr" and e.get("n", "").endswith("::op"):
+                root, ch = member_chain(f, e)
+                if root == bi and any(c.endswith("forStatement::check") for c in ch):
+                    return "OP:check"
+                return "OP:?%s" % root
+            return None
+
+        def fallback(e):
+            # `it != attr.kwargs.end()`: the configuration "no check= argument given"
+            if e["k"] in ("CXXOperatorCallExpr", "BinaryOperator") and e.get("op") in ("!=", "==") and ".end()" in noid(render(e, False)):
+                return e["op"] == "=="
+            return None
+        return src, ops, fallback
+
+    def stores(f, cfgd):
+        src, ops, fb = sources_for(f)
+        try:
+            b = Builder(prog, f, {}, cfgd, {}, sym_sources=src, op_sources=ops, cond_fallback=fb)
+            caps = b.effects()
+        except TermError as e:
+            raise AnalysisBroken("%s %s: builder not reducible to closed forms: %s" % (f.q, cfgd, e))
+        out = {}
+        for kind, node, term in caps:
+            if kind == "assign":
+                root, ch = member_chain(f, node)
+                key = ("assign", root, ch[-1].split("::")[-1] if ch else "?")
+            elif kind == "push":
+                key = ("push",)
+            else:
+                key = ("call", callee(node).split("::")[-1])
+            out.setdefault(key, []).append(term)
+        return out
+
+    def nf(t):
+        try:
+            return nf_deep(t)
+        except TermError as e:
+            return ("unknown", str(e))
+    B_, TILE, INC, STEP, X_ = (NF(Poly.sym(x)) for x in ("B", "TILE", "INC", "STEP", "X"))
+    vi, bi, ii = roles(sb)
+    for flag, op_, step_ in (("increment", "+=", TILE), ("decrement", "-=", TILE), ("addEq", "+=", NF(Poly.sym("TILE") * Poly.sym("INC"))), ("subEq", "-=", NF(Poly.sym("TILE") * Poly.sym("INC")))):
+        cfgd = {"flag:" + x: (x == flag) for x in ("increment", "decrement", "addEq", "subEq")}
+        st = stores(sb, cfgd).get(("assign", bi, "update"), [])
+        got = nf(st[0]) if len(st) == 1 else None
+        want = (op_, B_, step_)
+        ok = got == want
+        R.ob("C18-R2", ok, sb.q, "block update[%s]" % flag, "%s:%d" % (sb.relfile, sb.d["line"]),
+             ("block loop advances by %s" % (st and show(st[0]))) if ok else
+             "the block loop's update is built as %s, expected xTile %s %r: the block loop must advance by a whole number of original steps (TILE of them), in the original direction"
+             % ([show(t) for t in st] or "nothing", op_, step_))
+    vi, bi, ii = roles(si)
+    n_in = 0
+    for add in (True, False):
+        for kind in ("lessThanEq", "greaterThanEq", "strict"):
+            for right in (True, False):
+                cfgd = {"flag:addEq": add, "flag:subEq": not add, "flag:lessThanEq": kind == "lessThanEq", "flag:greaterThanEq": kind == "greaterThanEq", "member:checkValueOnRight": right}
+                st = stores(si, cfgd)
+                tag = "%s, %s, bound on the %s" % ("+=" if add else "-=", kind, "right" if right else "left")
+                if n_in == 0:
+                    d0 = st.get(("push",), [])
+                    ok = len(d0) == 1 and nf(d0[0]) == ("decl", X_, B_)
+                    R.ob("C18-R2", ok, si.q, "inner init: x = xTile", "%s:%d" % (si.relfile, si.d["line"]),
+                         "the inner loop starts at the block iterator" if ok else "the inner loop's iterator is declared as %s, expected x = xTile" % [show(t) for t in d0])
+                n_in += 1
+                ck = st.get(("assign", ii, "check"), [])
+                off = NF(Poly.sym("B") + Poly.sym("STEP")) if add else NF(Poly.sym("B") - Poly.sym("STEP"))
+                o = {"lessThanEq": "<", "greaterThanEq": ">", "strict": "OP:check"}[kind]
+                want = (o, X_, off) if right else (o, off, X_)
+                got = nf(ck[0]) if len(ck) == 1 else None
+                ok = got == want
+                rid = "C18-R4" if kind != "strict" else "C18-R2"
+                R.ob(rid, ok, si.q, "inner check[%s]" % tag, "%s:%d" % (si.relfile, si.d["line"]),
+                     ("inner loop runs while %s: one block step, strict comparison" % show(ck[0])) if ok else
+                     "the inner loop's check is built as %s; it must compare the iterator strictly against xTile %s STEP where STEP is the block loop's own step (%s): otherwise tiles overlap, leave gaps or run the wrong way"
+                     % ([show(t) for t in ck] or "nothing", "+" if add else "-", "right operand of the block update"))
+    vi, bi, ii = roles(sc)
+    for right in (True, False):
+        st = stores(sc, {"member:checkValueOnRight": right})
+        cond = st.get(("call", "setCondition"), [])
+        want = ("OP:check", X_, NF(Poly.sym("BOUND_R"))) if right else ("OP:check", NF(Poly.sym("BOUND_L")), X_)
+        got = nf(cond[0]) if len(cond) == 1 else None
+        ok = got == want
+        R.ob("C18-R3", ok, sc.q, "remainder guard[bound on the %s]" % ("right" if right else "left"), "%s:%d" % (sc.relfile, sc.d["line"]),
+             ("if (%s): the user's own operator, bound and iterator (check= not given)" % show(cond[0])) if ok else
+             "with no check= argument the guard is built as %s; expected the original comparison between the iterator and the original bound" % ([show(t) for t in cond] or "nothing: the body runs past the original bound in the last tile"))
+    # check=false is the only way to drop the guard
     cfg = sc.cfg
     IN = cfg.facts_in()
-    req = [n for n in sc.walk() if n["k"] == "VarDecl" and n["n"] == "requiresBoundsCheck"]
-    ok = len(req) == 1 and literal(kids(req[0])[0]) is True
-    R.ob("C18-R3", ok, sc.q, "check defaults to true", sc.site(req[0]) if req else sc.relfile, "bounds check required unless told otherwise")
     early = [n for n in sc.walk() if n["k"] == "ReturnStmt"]
-    ok = len(early) == 1 and any((not pol) and noid(k) == "requiresBoundsCheck" for (k, pol) in cfg.facts_at(early[0], IN))
-    R.ob("C18-R3", ok, sc.q, "skipped only when check evaluates to false", sc.site(early[0]) if early else sc.relfile, "the only early return is under !requiresBoundsCheck")
-    be = [c for c in sc.walk() if is_call(c) and callee(c) == "occa::lang::expr::binaryOpExpr"]
-    ok = len(be) == 2
-    for c in be:
-        a = call_args(c)
-        txt = [noid(render(x, False)) for x in a]
-        ok = ok and txt[0] == "checkOp" and (("iterator" == txt[1] and "checkExpr.rightValue" in txt[2]) or ("checkExpr.leftValue" in txt[1] and txt[2] == "iterator"))
-    R.ob("C18-R3", ok, sc.q, "guard re-uses the original operator and bound with the original iterator", sc.site(be[0]) if be else sc.relfile, "if (iterator <op> bound) with the user's own operator and operand")
-    co = [n for n in sc.walk() if n["k"] == "VarDecl" and n["n"] == "checkOp"]
-    ce = [n for n in sc.walk() if n["k"] == "VarDecl" and n["n"] == "checkExpr"]
-    ok = len(co) == 1 and "checkExpr.op" in noid(render(co[0], False)) and len(ce) == 1 and "checkSmnt" in noid(render(ce[0], False))
-    R.ob("C18-R3", ok, sc.q, "operator and bound come from the block loop's check", sc.site(co[0]) if co else sc.relfile, "checkExpr <- *blockForSmnt.check")
-    sel = [n for n in sc.walk() if n["k"] == "ConditionalOperator" and "checkValueOnRight" in noid(render(kids(n)[0], False))]
-    R.ob("C18-R3", len(sel) == 1, sc.q, "operand order follows checkValueOnRight", sc.site(sel[0]) if sel else sc.relfile, "iterator stays on the side it was written on")
+    flags = [n for n in sc.walk() if n["k"] == "VarDecl" and sc.tname(n.get("t")) in ("bool", "_Bool") and kids(n) and literal(kids(n)[0]) is True]
+    ok = len(early) == 1 and len(flags) == 1 and any((not pol) and noid(k) == flags[0]["n"] for (k, pol) in cfg.facts_at(early[0], IN))
+    R.ob("C18-R3", ok, sc.q, "guard skipped only when check evaluates to false", sc.site(early[0]) if early else sc.relfile, "the flag starts true and the only early return is under its negation")
+    ws = [n for n in sc.walk() if n["k"] == "BinaryOperator" and n.get("op") == "=" and flags and strip(kids(n)[0]).get("d") == flags[0]["d"]]
+    ok = len(ws) == 1 and "evaluate" in noid(render(kids(ws[0])[1], False)) and "check" in [literal(x) for x in sc.walk() if isinstance(literal(x), str)]
+    R.ob("C18-R3", ok, sc.q, "flag is only overwritten by the value of the check= argument", sc.site(ws[0]) if ws else sc.relfile, "kwargs[\"check\"] evaluated")
     ac = prog.fn(T + "applyCodeTransformations")
     lam = [prog.funcs[n["lam"]] for n in ac.walk() if n["k"] == "LambdaExpr" and n["lam"] in prog.funcs]
     order = []
@@ -170,8 +190,9 @@ def run(ctx):
 
 
 META = {
-    "technique": "PAREN abstract interpretation over the three @tile builders (operator-top sets, repository precedence table); data-flow agreement between the block loop's step and the inner loop's extent; guard/default facts for the remainder check",
-    "level": "Static decision that the tile size, the increment and the block step are embedded parenthesised wherever the @tile transform builds an operator node, that the inner loop's bound offset is derived from the block loop's own update "
-             "right-hand side (so the inner loops tile the range the block loop steps over, for every step size and direction), and that the remainder check is on by default and re-uses the user's comparison operator, bound and iterator.",
-    "note": "Does not decide the arithmetic identity (exactly-once coverage for all T, step, direction), which is value-level; check=false is only structurally the omission of the guard.",
+    "technique": "PAREN abstract interpretation over the three @tile builders (operator-top sets, repository precedence table); TERM: abstract execution of the three builders per header configuration (update operator x comparison kind x operand side) to the terms they store into the block/inner loops and the guard, compared in polynomial normal form with the required loop nest; access-path provenance of every header operand (block update, block check); guard/default facts for check=",
+    "level": "Static decision that the tile size, the increment and the block step are embedded parenthesised wherever the @tile transform builds an operator node; that for every update operator (++ -- += -=) the block loop advances by TILE resp. TILE*INC in the original direction; "
+             "that for all 12 combinations of direction, comparison kind and operand side the inner loop starts at the block iterator and runs strictly up to (down to) block iterator +/- the block loop's own step; and that with no check= argument the guard "
+             "is the user's own comparison between the iterator and the original bound, dropped only when check= evaluates to false. Together these are the loop-nest shape under which the tiles partition the original iteration sequence.",
+    "note": "The final step from that loop-nest shape to exactly-once coverage is the textbook strip-mining argument and is not mechanised; overflow of xTile + STEP and non-positive tile sizes are not decided; check=false is only structurally the omission of the guard.",
 }
